@@ -25,7 +25,7 @@ def explore(run):
         # corpus: finding D-C02a (fixed): a cross-file triple declared in both files
         n = 1200 if thorough else 90
         for i in range(n):
-            g = D.gen_graph(rng, hostile=rng.random() < 0.5, closed=False, values_ok=False)
+            g = D.gen_graph(rng, hostile=rng.random() < 0.5, closed=False, values_ok=False, features={"repeat_nodes": rng.random() < 0.2})
             tables = []
             for s_ in range(20 if thorough and i % 10 == 0 else 3):
                 files = D.serialise(rng, g, one_file=rng.random() < 0.3)
